@@ -27,12 +27,7 @@ impl BigUint {
 
 pub mod division {
     use super::*;
-    //@ assume div_rem_ref : shell over div_rem_digit (proved, k_div) and div_rem_core (Knuth D: assumed contract); shell unit pending
-    #[verifier::external_body]
-    pub fn div_rem_ref(u: &BigUint, d: &BigUint) -> (r: (BigUint, BigUint))
-        requires u.wf(), d.wf(), !mp() ==> d.v() != 0
-        ensures mp() ==> d.v() != 0, r.0.wf(), r.1.wf(), u.v() == r.0.v() * d.v() + r.1.v(), r.1.v() < d.v(), udiv_ok(u.v(), d.v(), r.0.v(), r.1.v())
-    { unimplemented!() }
+//@ stub u_div/div_rem_ref
 }
 
 impl AddSpecImpl<u32> for BigUint {
